@@ -182,7 +182,107 @@ class FnBounds:
                 out.append(b.add(a, -1))
             elif pred == "slt":
                 out.append(b.add(a, -1).add(Lin.const(-1)))
-        return out + self.inv_facts + self.and_facts() + self.switch_facts(block) + self.trip_facts(block) + self.header_phi_facts(block) + self.countdown_facts(block)
+        return out + self.inv_facts + self.and_facts() + self.switch_facts(block) + self.trip_facts(block) + self.header_phi_facts(block) + self.countdown_facts(block) + self.orbit_facts(block)
+
+    def orbit_facts(self, block):
+        """a loop-carried integer that starts at a constant and whose next value is computed from it by constants alone (`pos += 4; if (pos == 8)
+        pos = 0;`): its values form a finite orbit, found by evaluating that computation concretely; min and max of the orbit bound it"""
+        f, A = self.f, self.A
+        cache = getattr(self, "_orbcache", None)
+        if cache is None:
+            cache = self._orbcache = {}
+        out = []
+        for L in f.loops:
+            H = L["header"]
+            if not f.dominates_block(H, block):
+                continue
+            if H not in cache:
+                cache[H] = []
+                for iid in f.blocks[H].insts:
+                    P = f.insts[iid]
+                    if P.op != "phi":
+                        break
+                    if (P.get("ty") or "").endswith("*") or not P.bits or (P.get("scev") or {}).get("k") == "rec":
+                        continue
+                    ini = [tuple(x[0]) for x in P.get("inc") if x[1] not in L["blocks"]]
+                    backs = [(tuple(x[0]), x[1]) for x in P.get("inc") if x[1] in L["blocks"]]
+                    if len(ini) != 1 or ini[0][0] != "c" or len(backs) != 1:
+                        continue
+                    orb = self._orbit(P, int(ini[0][1]), backs[0][0], L)
+                    if orb:
+                        pv = Lin.sym(("i", P.id))
+                        cache[H] += [pv.add(Lin.const(-min(orb))), pv.scale(-1).add(Lin.const(max(orb)))]
+            out += cache[H]
+        return out
+
+    def _orbit(self, P, v0, backv, L):
+        f = self.f
+        mask = (1 << P.bits) - 1
+
+        def ev(v, val, depth=0):
+            """concrete value of v when P == val, or None"""
+            v = tuple(v)
+            if depth > 12:
+                return None
+            if v[0] == "c":
+                return int(v[1]) & ((1 << v[2]) - 1) if v[2] <= 64 else None
+            if v == ("i", P.id):
+                return val
+            I = f.inst(v)
+            if I is None or I.b not in L["blocks"]:
+                return None
+            o = I.ops
+            if I.op in ("add", "sub", "and", "or", "xor", "mul", "shl", "lshr"):
+                a, b_ = ev(o[0], val, depth + 1), ev(o[1], val, depth + 1)
+                if a is None or b_ is None:
+                    return None
+                m = (1 << I.bits) - 1
+                r = {"add": a + b_, "sub": a - b_, "and": a & b_, "or": a | b_, "xor": a ^ b_, "mul": a * b_,
+                     "shl": a << b_ if b_ < 64 else 0, "lshr": a >> b_ if b_ < 64 else 0}[I.op]
+                return r & m
+            if I.op in ("zext", "trunc", "freeze"):
+                a = ev(o[0], val, depth + 1)
+                return None if a is None else a & ((1 << I.bits) - 1)
+            if I.op == "icmp":
+                a, b_ = ev(o[0], val, depth + 1), ev(o[1], val, depth + 1)
+                if a is None or b_ is None:
+                    return None
+                bits = f.inst(tuple(o[0])).bits if f.inst(tuple(o[0])) is not None else (o[0][2] if o[0][0] == "c" else 64)
+                return int(ir.eval_icmp(I.get("pred"), a, b_, bits or 64))
+            if I.op == "select":
+                c_ = ev(o[0], val, depth + 1)
+                return None if c_ is None else ev(o[1] if c_ else o[2], val, depth + 1)
+            if I.op == "phi":
+                # a merge inside the loop body: follow the branch of its immediate dominator concretely
+                d = f.blocks[I.b].idom
+                be = ir.branch_edges(f, d) if d != -1 else None
+                if not be:
+                    return None
+                c_ = ev(be[0], val, depth + 1)
+                if c_ is None:
+                    return None
+                cur, prev = (be[1] if c_ else be[2]), d
+                for _n in range(4):
+                    if cur == I.b:
+                        break
+                    t = f.term(cur)
+                    if t.op != "br" or t.get("cond"):
+                        return None
+                    prev, cur = cur, t.get("succ")[0]
+                if cur != I.b:
+                    return None
+                inc = [tuple(x[0]) for x in I.get("inc") if x[1] == prev]
+                return ev(inc[0], val, depth + 1) if len(inc) == 1 else None
+            return None
+        orb, v = [], v0 & mask
+        while v not in orb:
+            orb.append(v)
+            if len(orb) > 64:
+                return None
+            v = ev(backv, v)
+            if v is None:
+                return None
+        return orb
 
     def countdown_facts(self, block):
         """a top-tested loop that counts a remaining length down: `while (n >= C) { ...; n -= d; }` with C >= d and the head the only exit.
@@ -483,6 +583,12 @@ class FnBounds:
                 if cq == cr and xq == xr and bq == br:
                     e = xq.add(tq, -cq).add(tr, -1)
                     out += [e, e.scale(-1)]
+        # a remainder without its quotient in the code still has one: x == c*Q + (x % c) for some Q >= 0 (a fresh symbol per remainder);
+        # together with integer rounding this ties `len & 3` to a length counted down in steps of 4
+        for n_, (xr, cr, tr, br) in enumerate(rs):
+            if not any(cq == cr and xq == xr for xq, cq, tq, bq in qs):
+                e = xr.add(Lin.sym(("qi", n_)), -cr).add(tr, -1)
+                out += [e, e.scale(-1)]
         self._and_facts = out
         return out
 
@@ -557,11 +663,30 @@ class FnBounds:
                 return F2
             return None
         if len(facts) <= 60:
-            for i, g in enumerate(facts):
-                for h in [None] + facts[i + 1:]:
+            # (symbols pinned to a constant by an equality - a switch case, a residue - are replaced first: they hide the common divisor)
+            pin = {}
+            for e in eqs:
+                ss = [s_ for s_ in e if s_ != 1]
+                if len(ss) == 1 and e[ss[0]] in (1, -1):
+                    pin[ss[0]] = -e.get(1, 0) * e[ss[0]]
+
+            def _pinned(L_):
+                if not any(s_ in pin for s_ in L_):
+                    return L_
+                r_ = Lin()
+                for s_, c_ in L_.items():
+                    r_ = r_.add(Lin.const(pin[s_] * c_) if s_ in pin else Lin({s_: c_}))
+                return r_
+            Rp = _pinned(R)
+            fp = [_pinned(g) for g in facts]
+            for i, g in enumerate(fp):
+                for h in [None] + fp[i + 1:]:
                     F = g if h is None else g.add(h)
                     F2 = _rounded(F)
-                    if F2 is not None and self._trivially_nonneg(R.add(F2, -1)):
+                    if F2 is None:
+                        continue
+                    R2 = Rp.add(F2, -1)
+                    if self._trivially_nonneg(R2) or any(self._trivially_nonneg(R2.add(h2, -1)) for h2 in fp):
                         return True
         # ... plus two plain facts (block index < block count scaled by the block size, count*size <= length, byte index < size)
         if len(facts) <= 60:
@@ -687,8 +812,14 @@ class FnBounds:
                 continue
             for inc, pb in P.get("inc"):
                 if pb in L["blocks"]:
-                    v = A.value(tuple(inc))
-                    if any(u in own or (isinstance(u, tuple) and u[0] == "k" and u[1] == hb) for u in v):
+                    inc = tuple(inc)
+                    # the value coming round must be computed outside the loop (a merge inside the loop of "old value + 4" and 0 refers
+                    # to the previous visit's value under the same name: substituting it would count the same step again and again)
+                    J = f.inst(inc)
+                    if J is not None and J.b in L["blocks"]:
+                        return False
+                    v = A.value(inc)
+                    if any(u in own or (isinstance(u, tuple) and u[0] == "k" and u[1] == hb) or (isinstance(u, tuple) and u[0] == "i" and f.inst(u) is not None and f.inst(u).b in L["blocks"]) for u in v):
                         return False
         return True
 
